@@ -2585,7 +2585,7 @@ harness!(divide_double_double_valid, 1, {
     std::mem::forget(r);
 });
 
-//# harness finding_f26_divide_integer_integer tier=quick label=complete props=C01 fn=rusty_variant/src/variant.rs::Variant::divide expect=finding:F26 standalone=1 timeout=1500
+//# harness finding_f26_divide_integer_integer tier=thorough label=complete props=C01 fn=rusty_variant/src/variant.rs::Variant::divide expect=finding:F26 standalone=1 timeout=1500
 harness!(finding_f26_divide_integer_integer, 1, {
     let a = vs::i32();
     vs::assume(a >= -32768 && a <= 32767);
